@@ -6,8 +6,8 @@ import numpy as np
 
 from ref import bsp, galerkin as G, kvs as KV
 
-RTOL = 1e-10        # norm-wise, implementation vs exact rational reference (unchanged tree: <= 4e-14)
-RTOL_ROUTES = 1e-12  # norm-wise, two assembly routes of the same bilinear form (unchanged tree: <= 3e-15)
+RTOL = 1e-10        # norm-wise, implementation vs exact rational reference (unchanged tree, thorough space: <= 6e-15)
+RTOL_ROUTES = 1e-12  # norm-wise, two assembly routes of the same bilinear form (unchanged tree: <= 1.2e-15)
 
 
 def _make_roomy():
